@@ -1,5 +1,5 @@
 """C21 wrap-in-dbg and add-type-annotation preserve behaviour."""
-REG_DRAFT = dict(
+REG = dict(
     engine='E1-enum',
     technique='bounded-exhaustive enumeration of programs x every expression span (wrap_in_dbg) and every let-name / parameter / function-header position (add_type_annotation); the produced program is parsed, checked and run on the real implementation and compared with the original',
     text='wrap_in_dbg: every value-expression span inside the context statements of the C20 program space (placement x context x expression). Oracle: the produced program parses, stdout / final value / outcome / test verdicts are those of the original (stderr ignored). add_type_annotation: every un-annotated let name, parameter (function, closure) and function / closure header of the same programs, plus a typed family: 50 values of distinct types (scalars, lists, options, results, tuples, structs, generic structs, enums, closures, constructors and functions as values, dicts, generic calls) x 6 positions quick / 10 thorough (let in function / at top level / in a closure in a test, function return, closure return, closure parameter typed by its use; thorough: match arm, method return, let of let, return after early return). Oracle: produced program parses; the set of `check` error messages does not grow; same run behaviour.',
